@@ -425,7 +425,7 @@ class MsgpackSerializer(SerializerBase):
         # classes are recreated after unpacking (top-down, like the other serializers do it) instead of by an
         # object_hook: the members of a serialized class must still be plain data when dict_to_class
         # handles it, never live objects such as a proxy, which does remote calls when iterated or indexed
-        obj, method, vargs, kwargs = msgpack.unpackb(self._convertToBytes(data), raw=False)
+        obj, method, vargs, kwargs = msgpack.unpackb(self._convertToBytes(data), raw=False, ext_hook=self.ext_hook)
         vargs = self.recreate_classes(vargs)
         kwargs = self.recreate_classes(kwargs)
         return obj, method, vargs, kwargs
